@@ -29,9 +29,9 @@ NOT_DECIDED = ["exact boundary inside tokio-util (> vs >=)", "header-vs-body acc
 ASSUMPTIONS = []
 
 
-def tokio_util_default_limit():
+def tokio_util_default_limit(repo=None):
     """Evaluate `max_frame_len: <expr>` in tokio-util's Builder::new from the dependency source the build uses."""
-    r = subprocess.run(["cargo", "metadata", "--format-version", "1", "--offline"], cwd=facts.REPO, stdout=subprocess.PIPE, stderr=subprocess.DEVNULL, text=True)
+    r = subprocess.run(["cargo", "metadata", "--format-version", "1", "--offline"], cwd=repo or facts.REPO, stdout=subprocess.PIPE, stderr=subprocess.DEVNULL, text=True)
     if r.returncode != 0:
         raise Undecidable("cargo metadata failed")
     md = json.loads(r.stdout)
@@ -124,7 +124,7 @@ def run(cx):
         if b is None:
             raise AnchorLost("codec body")
         none = {w for w in ws if w.startswith("limit=None")}
-        default, ver = tokio_util_default_limit()
+        default, ver = tokio_util_default_limit(cx.repo)
         ob.note(f"tokio-util {ver}: Builder::new() max_frame_len = {default}")
         ob.count(len(none))
         lifted = none == {"limit=None max_frame_length(unbounded) ret=new_codec <return>"}
